@@ -34,7 +34,7 @@ def cases(draw):
         else:
             insts.append({"T": draw(st.sampled_from(TYPES)), "N": draw(st.integers(1, 5)), "K": draw(st.integers(0, 120)), "x": draw(st.integers(0, 100))})
     probes = []
-    for name in ("dependent-value", "runtime-first", "forwarding", "named-const-args"):
+    for name in ("dependent-value", "runtime-first", "forwarding", "named-const-args", "varargs"):
         if draw(st.booleans()):
             vals = [draw(st.integers(1, 6)) for _ in range(4)]
             probes.append({"probe": name, "v": vals, "types": [draw(st.sampled_from(TYPES)), draw(st.sampled_from(TYPES))]})
@@ -130,6 +130,21 @@ def probe_parts(pr, generic, ns):
             lib = [f"in2_{m} :: (v: i64) -> i64 {{ arr : [{m}]u8; v + i64.(arr.len) }}" for m in sorted({n1, n2, 2})]
             lib += [f"fwd_{n} :: (x: i64) -> i64 {{ in2_{n}(x) + in2_2(x) }}" for n in sorted({n1, n2})]
             calls = [f"fwd_{n1}(10)", f"fwd_{n2}(10)", f"fwd_{n1}(11)"]
+        return lib, [], calls, exp
+    if name == "varargs":
+        # a generic function with a variable number of arguments of the comptime type
+        t1, t2 = pr["types"]
+        T1, T2 = INT_BY_NAME[t1], INT_BY_NAME[t2]
+        a1, a2 = [v[0], v[1] + 100, v[2]], [v[3], 90]
+        exp = [to_i64(T1.wrap(sum(a1) + 1)), to_i64(T2.wrap(sum(a2) + 2)), to_i64(T1.wrap(0 + 1))]
+        if generic:
+            lib = ["vsum :: (comptime T: type, first: T, vals: ...T) -> T { acc : T = first; i : usize = 0; while i < vals.len { acc = acc + vals[i]; i += 1; } acc }"]
+            calls = [f"i64.({ns}vsum({t1}, {t1}.(1), {', '.join(f'{t1}.({x})' for x in a1)}))", f"i64.({ns}vsum({t2}, {t2}.(2), {', '.join(f'{t2}.({x})' for x in a2)}))", f"i64.({ns}vsum({t1}, {t1}.(1)))"]
+        else:
+            lib, calls = [], []
+            for k, (t, first, args) in enumerate(((t1, 1, a1), (t2, 2, a2), (t1, 1, []))):
+                lib.append(f"vsum_{k} :: (first: {t}, vals: ...{t}) -> {t} {{ acc : {t} = first; i : usize = 0; while i < vals.len {{ acc = acc + vals[i]; i += 1; }} acc }}")
+                calls.append(f"i64.(vsum_{k}({t}.({first}){''.join(f', {t}.({x})' for x in args)}))")
         return lib, [], calls, exp
     # named-const-args: the comptime argument is a named constant / an alias / a constant of the library file
     ca, other = v[0] + 1, v[1] + 10
@@ -263,7 +278,7 @@ def replay_payload(payload, scratch):
 RULE = ("generic function with comptime T (type), optional comptime N (array size / loop bound) and K (value), body of 1-5 steps (loop to N, [N]T array fill, +K, nested generic "
         "call, xor, shift, conditional), inline header reference, optionally in an imported file; plus an identity generic over a distinct / struct type; 1-4 instantiations with "
         "equal and different comptime arguments; optional probes: a comptime parameter whose type is an earlier comptime parameter, run-time parameter before the comptime ones, "
-        "a comptime parameter forwarded to a nested generic, named constants / aliases / library constants as comptime arguments. Non-trivial = >= 2 different argument tuples and a non-type comptime parameter or nested generic call; distinct by case.")
+        "a comptime parameter forwarded to a nested generic, named constants / aliases / library constants as comptime arguments, a variable number of arguments of the comptime type. Non-trivial = >= 2 different argument tuples and a non-type comptime parameter or nested generic call; distinct by case.")
 
 
 def run(ctx):
